@@ -504,6 +504,43 @@ def _param_deref_in_entry(prog, callee, n):
     return False
 
 
+def rule_MP13(rep, prog, q):
+    rid = rep.rule("C03-MP13", "where a blocked dispatch_sync caller parks: _dispatch_wait_compute_wlh records a real queue as the waiter's wlh only for a target whose "
+                   "state it found BASE_WLH (and neither suspended nor BASE_ANON); for every other bottom - in this configuration every workloop is BASE_ANON - the "
+                   "waiter parks on its thread event (DISPATCH_WLH_ANON). A non-anonymous wlh makes the event-loop wait a no-op here: the caller does not block at all "
+                   "and runs its item while the hierarchy is owned by someone else", floor=2)
+    fn = prog.fn("_dispatch_wait_compute_wlh")
+    rep.saw(fn)
+    WLHB, ANONB = q.c["DISPATCH_QUEUE_ROLE_BASE_WLH"], q.c["DISPATCH_QUEUE_ROLE_BASE_ANON"]
+    def bit_tests(bit):
+        out = []
+        for t in fn.all_insts():
+            if t.op == "icmp" and t.d["pred"] in ("eq", "ne") and t.ops[1][0] == "c" and t.ops[1][1] == 0:
+                a = fn.inst(t.ops[0])
+                if a is not None and a.op == "and" and a.ops[1][0] == "c" and a.ops[1][1] == bit:
+                    out.append(t)
+        return out
+    tw, ta = bit_tests(WLHB), bit_tests(ANONB)
+    sts = [st for st in fn.all_insts() if st.op == "store" and "dc_data" in prog.fields(st)]
+    if not tw or not ta or not sts:
+        rep.unknown(rid, "anchor vanished in _dispatch_wait_compute_wlh (BASE_WLH tests=%d, BASE_ANON tests=%d, dc_data stores=%d)" % (len(tw), len(ta), len(sts)))
+        return
+    n = 0
+    for st in sts:
+        n += 1
+        if st.ops[0][0] in ("c", "ce", "n"):
+            rep.ok(rid, "wlh-anon-store", {"store": st.loc, "value": "constant"})
+            continue
+        cx = paths.dom_ctx(fn, st)
+        is_wlh = any(cx.truth.get(t.id) == (t.d["pred"] == "ne") for t in tw)
+        not_anon = any(cx.truth.get(t.id) == (t.d["pred"] == "eq") for t in ta)
+        rep.require(rid, is_wlh and not_anon, st.loc, fn.name, "waiter-wlh-set-for-non-wlh-target",
+                    "_dispatch_wait_compute_wlh stores a queue as the waiter's wlh (dc_data) at a point where the target's state was not established to be BASE_WLH and "
+                    "not BASE_ANON (BASE_WLH seen: %s, BASE_ANON excluded: %s): a dispatch_sync that has to park on an inner queue of a hierarchy whose bottom is "
+                    "BASE_ANON (a workloop, on this platform) does not park at all and overlaps the items running there" % (is_wlh, not_anon),
+                    sample={"store": st.loc})
+
+
 def rule_WL10(rep, prog, q):
     rid = rep.rule("C03-WL10", "a workloop at the bottom of a hierarchy: the thread's current wlh is DISPATCH_WLH_ANON whenever the workloop is drained by an ordinary "
                    "worker thread (always, without kernel workloops), so the value of _dispatch_get_wlh() is dereferenced only after it was compared with "
@@ -651,6 +688,12 @@ def run(rep, tier="quick", srcdir=None, only=None):
         rule_MP11(rep, prog, q)
     if want("C03-TB12"):
         rule_TB12(rep, prog, q)
+    if want("C03-MP13"):
+        rule_MP13(rep, prog, q)
+    if want("C02-SB5"):
+        # the serial queue at the bottom excludes only because every waiting submission form takes its barrier lock when dq_width == 1 (shared with C02)
+        from . import C02
+        C02.rule_barrier_flag(rep, prog, q)
 
 
 MANIFEST = {
